@@ -2,6 +2,7 @@ package mc
 
 import (
 	"fmt"
+	"strings"
 
 	"github.com/element-of-surprise/coercion/workflow"
 )
@@ -44,7 +45,90 @@ func hangCause(x *Exec, h *Hist) string {
 	return "hang:unclassified"
 }
 
-func (monC03) AtState(x *Exec) {
+// recoveryTolerance: failures that were durable before the crash still count against the tolerance afterwards.
+func (monC03) recoveryTolerance(x *Exec) {
+	from, to := newEvents(x, "c03r")
+	if from == to {
+		return
+	}
+	h := NewHist(x, -1)
+	for k := from; k < to; k++ {
+		e := &h.Events[k]
+		if e.Kind != "INV" {
+			continue
+		}
+		oi := x.W.Objs[e.Path]
+		if !isSeqAction(oi) {
+			continue
+		}
+		cv := crashView(x, oi.Plan)
+		if cv == nil {
+			continue
+		}
+		if ss := cv.Objs[oi.Parent]; ss == nil || ss.Status != workflow.NotStarted {
+			continue // it was already in flight (or finished) at the crash
+		}
+		bs := &x.Sc.Plans[oi.Plan].Blocks[oi.Block]
+		if bs.Tol < 0 {
+			continue
+		}
+		failed := 0
+		for _, sp := range x.seqPaths(oi.Plan, oi.Block) {
+			if so := cv.Objs[sp]; so != nil && so.Status == workflow.Failed {
+				failed++
+			}
+		}
+		if failed > bs.Tol {
+			x.Report(&Violation{Property: "C03", Rule: "sequence-started-after-tolerance-exceeded", Signature: "tolerance-across-crash",
+				Msg: fmt.Sprintf("recovery started %s although %d sequences of its block were durably Failed before the crash (ToleratedFailures=%d)", oi.Parent, failed, bs.Tol)})
+		}
+	}
+}
+
+func (monC03) recoveryEnd(x *Exec) {
+	if x.Outcome != "done" {
+		return
+	}
+	for pi := range x.Sc.Plans {
+		p, err := x.ReadPlan(pi)
+		if err != nil {
+			continue
+		}
+		v := View(p)
+		for bi := range x.Sc.Plans[pi].Blocks {
+			bs := &x.Sc.Plans[pi].Blocks[bi]
+			bp := fmt.Sprintf("P%d/B%d", pi, bi)
+			bo := v.Objs[bp]
+			if bo == nil || bs.Tol < 0 {
+				continue
+			}
+			failed := 0
+			for _, sp := range x.seqPaths(pi, bi) {
+				if so := v.Objs[sp]; so != nil && so.Status == workflow.Failed {
+					failed++
+				}
+			}
+			conc := bs.Conc
+			if conc < 1 {
+				conc = 1
+			}
+			if bo.Status == workflow.Completed && failed > bs.Tol {
+				x.Report(&Violation{Property: "C03", Rule: "block-completed-despite-failure", Signature: "block-status-across-crash",
+					Msg: fmt.Sprintf("after recovery %s is Completed with %d Failed sequences (ToleratedFailures=%d)", bp, failed, bs.Tol)})
+			}
+			if failed > bs.Tol+conc {
+				x.Report(&Violation{Property: "C03", Rule: "too-many-failed-sequences", Signature: "tolerance-across-crash",
+					Msg: fmt.Sprintf("after recovery %s has %d Failed sequences, ToleratedFailures+Concurrency=%d", bp, failed, bs.Tol+conc)})
+			}
+		}
+	}
+}
+
+func (mon monC03) AtState(x *Exec) {
+	if _, ok := recoveryMode(x); ok {
+		mon.recoveryTolerance(x)
+		return
+	}
 	m, _ := x.Mem["c03m"].(*c03mem)
 	if m == nil {
 		m = &c03mem{terminated: map[string]bool{}, frozen: map[string]map[string]bool{}}
@@ -125,7 +209,11 @@ func (monC03) AtState(x *Exec) {
 	}
 }
 
-func (monC03) AtEnd(x *Exec) {
+func (mon monC03) AtEnd(x *Exec) {
+	if _, ok := recoveryMode(x); ok {
+		mon.recoveryEnd(x)
+		return
+	}
 	h := NewHist(x, 0)
 	n := len(h.Events)
 	if x.Outcome == "hang" {
@@ -276,6 +364,14 @@ func init() {
 			for _, sc := range FamilySharp(tier) {
 				items = append(items, explore("C03", sc, b+1, true))
 			}
+			// the tolerance across a crash: every durable state of the failing-sequence scenarios is a crash point
+			var crash []*Scenario
+			for _, sc := range FamilyCrash(tier) {
+				if strings.Contains(sc.Name, "2fail") || (strings.Contains(sc.Name, "crash-b") && !strings.HasSuffix(sc.Name, "f-1")) {
+					crash = append(crash, sc)
+				}
+			}
+			items = append(items, crashItems("C03", tier, crash)...)
 			return items
 		},
 	})
